@@ -85,6 +85,9 @@ func (x *run) deathStart(e *kit.Entry) (int64, string) {
 // before its owner started closing; non-disposables are never touched.
 // final = the history has ended with the provider closed (or Build failed).
 func (x *run) checkC10(final bool) *Failure {
+	if n := x.W.NilCloses(); n > 0 {
+		return fail("C10", "untouched", "nil-pointer", "Close() was called %d time(s) on a nil pointer: an output a constructor left nil is not an instance (user code would have dereferenced nil)", n)
+	}
 	for _, e := range x.containerMade() {
 		reg := x.M.Regs[e.Reg]
 		feat := lifeName(reg.Life)
